@@ -184,8 +184,23 @@ def complete_meta(rng, feats, n, shape=None, traces=None):
     return meta
 
 
+def blob_masks(rng, n, h, w):
+    """Connected, hole-free, interior blobs (filled ellipses, >= 3x3 px)."""
+    yy, xx = np.mgrid[0:h, 0:w]
+    out = np.zeros((n, h, w), dtype=bool)
+    for i in range(n):
+        ry = rng.uniform(1.5, max(1.6, (h - 3) / 2))
+        rx = rng.uniform(1.5, max(1.6, (w - 3) / 2))
+        cy = rng.uniform(1 + ry, h - 2 - ry) if h - 2 - ry > 1 + ry else (h - 1) / 2
+        cx = rng.uniform(1 + rx, w - 2 - rx) if w - 2 - rx > 1 + rx else (w - 1) / 2
+        out[i] = ((yy - cy) / ry) ** 2 + ((xx - cx) / rx) ** 2 <= 1
+        if not out[i].any():
+            out[i, h // 2, w // 2] = True
+    return out
+
+
 def gen_model(rng, n=None, kinds=None, hostile_logs=True, complete=True, max_scalar=8,
-              special=0.15, roi=None):
+              special=0.15, roi=None, realistic=False):
     """kinds: subset of {"scalar", "int", "image", "image_bg", "mask", "contour", "trace"}"""
     n = n if n is not None else event_counts(rng)
     if kinds is None:
@@ -197,7 +212,11 @@ def gen_model(rng, n=None, kinds=None, hostile_logs=True, complete=True, max_sca
     feats = {}
     ns = int(rng.integers(1, max_scalar + 1))
     for f in rng.choice(FLOAT_SCALARS, ns, replace=False):
-        feats[str(f)] = float_scalar(rng, n, special=special)
+        if str(f).startswith("ml_score"):
+            # probabilities; dclab documents the range [0, 1]
+            feats[str(f)] = rng.uniform(0, 1, n)
+        else:
+            feats[str(f)] = float_scalar(rng, n, special=special)
     if "deform" not in feats:
         feats["deform"] = np.asarray(rng.uniform(0, 0.3, n))
     if "int" in kinds:
@@ -206,13 +225,15 @@ def gen_model(rng, n=None, kinds=None, hostile_logs=True, complete=True, max_sca
         if rng.random() < 0.6:
             feats["frame"] = int_scalar(rng, n, 2 ** 64 if rng.random() < 0.3 else 2 ** 40)
     h, w = roi if roi else (int(rng.integers(4, 25)), int(rng.integers(4, 25)))
+    if realistic:
+        h, w = max(h, 8), max(w, 8)
     shape = None
     for k in ("image", "image_bg"):
         if k in kinds:
             feats[k] = rng.integers(0, 256, (n, h, w), dtype=np.uint8)
             shape = (h, w)
     if "mask" in kinds:
-        feats["mask"] = rng.random((n, h, w)) < 0.4
+        feats["mask"] = blob_masks(rng, n, h, w) if realistic else rng.random((n, h, w)) < 0.4
         shape = (h, w)
     if "contour" in kinds:
         feats["contour"] = gen_contours(rng, n, h, w)
